@@ -22,7 +22,12 @@ RULE = ("2..12 distinct points with small integer coordinates (dim 1..3, float32
         "(function/estimator). The model runs on the implementation's own distance matrix (exact rationals) and recorded proposals; "
         "compared exactly: centre indices, labels, distances. Oracle: the invariant of the property on the implementation's output. "
         "non-trivial := n >= 4 and k >= 2"
-        " Input-class axes, each forced in every run for every entry point (cluster_common.gen_axis_streams): memory layout of the data (column subset / strided rows / Fortran / transposed / negative stride / strided columns / read-only; same values, the metric is evaluated on a fresh contiguous copy); container of the warm-start centres (2-D array or md.Trajectory slice, Python list of frames, the .centers list of an earlier result) with argument-unchanged checks on the list and the earlier result; a metric that returns its result in one reused float64 buffer; estimator-reuse histories (constructed with other parameters, optional earlier fit on the same or other data, parameters changed through set_params / attribute assignment, second fit) compared with the function form called with the current parameters; tiny length scales (x 2^-14..2^-20) incl. k-medoids started from labels+distances without centre indices. Every run of the real code is bounded by a watchdog (10 s; key does-not-terminate).")
+        " Input-class axes, each forced in every run for every entry point (cluster_common.gen_axis_streams): memory layout of the data (column subset / strided rows / Fortran / transposed / negative stride / strided columns / read-only; same values, the metric is evaluated on a fresh contiguous copy); container of the warm-start centres (2-D array or md.Trajectory slice, Python list of frames, the .centers list of an earlier result) with argument-unchanged checks on the list and the earlier result; a metric that returns its result in one reused float64 buffer; estimator-reuse histories (constructed with other parameters, optional earlier fit on the same or other data, parameters changed through set_params / attribute assignment, second fit) compared with the function form called with the current parameters; tiny length scales (x 2^-14..2^-20) incl. k-medoids started from labels+distances without centre indices. Every run of the real code is bounded by a watchdog (10 s; key does-not-terminate)."
+        " Estimator form: labels_ / distances_ / center_indices_ / centers_ are read after EVERY fit of a history (earlier fit read through "
+        "the attributes, fit_predict or predict; fit under test; second fit; warm start from est.centers_ of an earlier fit of the same "
+        "estimator) and must be those of that fit's result_; after the fit under test the clustering they describe is judged by the "
+        "property's clauses on its own. Wide feature vectors (48..100 features, float32/float64 with 12 fractional bits, euclidean) "
+        "through every entry point; k-medoids / k-hybrid there by the oracle only (irrational distances).")
 SHARD = 60
 
 
@@ -39,6 +44,7 @@ def generate(rng, tier):
             continue
         cases.append(cc.gen_kcenters(rng) if r < 0.4 else cc.gen_kmedoids(rng) if r < 0.8 else cc.gen_hybrid(rng))
     cases += cc.gen_axis_streams(rng, ["kcenters", "kmedoids", "hybrid", "traj"], reps=1 if tier == "quick" else 6)
+    cases += cc.gen_wide_stream(rng, reps=1 if tier == "quick" else 6)
     return cases
 
 
@@ -55,6 +61,8 @@ def oracle(c, out):
     f = cc.inv_failures(out)
     if out.get("attrs_ok") is False:
         f.append(("estimator-attrs", "estimator attributes differ from result_"))
+    f += cc.attr_failures(out)
+    f += cc.explicit_failures(c, out)
     if out.get("chain_equal") is False:
         f.append(("not-reproducible", "public kmedoids result differs from the chained per-sweep run with the same seed"))
     return f
@@ -72,7 +80,10 @@ def nontrivial(c, out):
 
 
 tags = cc.common_tags
-ESSENTIAL_TAGS = ["tiny-scale-start-without-centres", "init-array", "init-list", "init-result", "warm-init-md-trajectory", "non-contiguous-data", "buffer-reusing-metric",
+ESSENTIAL_TAGS = ["wide-features-kcenters-float32", "wide-features-kcenters-float64", "wide-features-kmedoids-float32", "wide-features-kmedoids-float64",
+                  "wide-features-hybrid-float32", "wide-features-hybrid-float64", "init-estimator",
+                  "estimator-read-attrs-then-refit", "estimator-read-fit_predict-then-refit", "estimator-read-predict-then-refit",
+                  "tiny-scale-start-without-centres", "init-array", "init-list", "init-result", "warm-init-md-trajectory", "non-contiguous-data", "buffer-reusing-metric",
                   "estimator-history-kcenters", "estimator-history-kmedoids", "estimator-history-hybrid",
                   "md-trajectory-input", "more-clusters-than-frames", "kcenters", "kmedoids", "hybrid", "warm-init", "ti", "estimator-form", "start-cold", "start-centers",
                   "start-state", "start-pairs", "explicit-proposals", "random-proposals", "matrix", "euclidean", "manhattan"]
